@@ -111,6 +111,8 @@ func (s *c14Signer) SignMessage(_ context.Context, msg []byte,
 func (s *c14Signer) VerifyMessage(_ context.Context, msg, sig []byte,
 	pubkey [33]byte, _ ...lndclient.VerifyMessageOption) (bool, error) {
 
+	c14Trace.verifyCalls++
+	c14Trace.lastVerify = false
 	pk, err := btcec.ParsePubKey(pubkey[:])
 	if err != nil {
 		return false, err
@@ -119,7 +121,15 @@ func (s *c14Signer) VerifyMessage(_ context.Context, msg, sig []byte,
 	if err != nil {
 		return false, nil
 	}
-	return parsed.Verify(chainhash.HashB(msg), pk), nil
+	c14Trace.lastVerify = parsed.Verify(chainhash.HashB(msg), pk)
+	return c14Trace.lastVerify, nil
+}
+
+// c14Trace is the call trace of the signer proxy during the current guarded
+// call: outcomes are classified by WHICH call failed, never by error texts.
+var c14Trace struct {
+	verifyCalls int
+	lastVerify  bool
 }
 
 func (s *c14Signer) sigTok(sig *ecdsa.Signature) string {
@@ -196,9 +206,22 @@ func c14Clone(t *sidecar.Ticket) *sidecar.Ticket {
 	return &c
 }
 
-// c14Err maps the (constant) error texts of the real code to the model's
-// error enum. Innermost causes first, since callers wrap with %v.
+// c14Err classifies an outcome for the correspondence with the model WITHOUT
+// looking at error texts: ok, err/sig (the last signature verification the
+// signer was asked for failed) or err/pre (refused before / apart from that).
 func c14Err(err error) string {
+	if err == nil {
+		return "ok"
+	}
+	if c14Trace.verifyCalls > 0 && !c14Trace.lastVerify {
+		return "err/sig"
+	}
+	return "err/pre"
+}
+
+// c14Kind names the error by its text — informational histogram buckets only
+// (never compared with the model, never a floor).
+func c14Kind(err error) string {
 	if err == nil {
 		return "ok"
 	}
@@ -243,8 +266,14 @@ func c14Guard(f func() error) (res string) {
 			res = "err:panic"
 		}
 	}()
-	return c14Err(f())
+	c14Trace.verifyCalls, c14Trace.lastVerify = 0, false
+	err := f()
+	c14LastKind = c14Kind(err)
+	return c14Err(err)
 }
+
+// c14LastKind: text-derived kind of the last guarded call (histogram only).
+var c14LastKind string
 
 // ------------------------------------------------------------------ cases
 
@@ -522,7 +551,7 @@ func (e *c14Env) acceptorFlow(r *Run, c c14Case) {
 	})
 	r.Emit(fmt.Sprintf("C14 validateordered %s %s", tok, c14B(known)), res)
 	r.Count("flow/validateordered/" + res)
-	r.Count("flow/" + c.Mutation + "/" + strings.SplitN(res, ":", 2)[0])
+	r.Count("flow/" + c.Mutation + "/" + res[:min(len(res), 3)])
 	violate := func(what string) {
 		r.Count("oracle/violation")
 		r.Violate(what+" (presented ticket "+tok+")",
@@ -564,7 +593,7 @@ func (e *c14Env) digests(r *Run, t *sidecar.Ticket) {
 		}()
 		d, err := f()
 		if err != nil {
-			return c14Err(err)
+			return "err/pre"
 		}
 		return "ok:" + hex.EncodeToString(d[:])
 	}
@@ -572,13 +601,16 @@ func (e *c14Env) digests(r *Run, t *sidecar.Ticket) {
 	o2 := dig(t.OrderDigest)
 	r.Emit("C14 offerdigest "+tok, o1)
 	r.Emit("C14 orderdigest "+tok, o2)
-	r.Count("digest/offer/" + strings.SplitN(o1, ":", 2)[0] + c14Tail(o1))
-	r.Count("digest/order/" + strings.SplitN(o2, ":", 2)[0] + c14Tail(o2))
+	r.Count("digest/offer/" + strings.SplitN(o1, ":", 2)[0])
+	r.Count("digest/order/" + strings.SplitN(o2, ":", 2)[0])
+	if t.Version > 1 {
+		r.Count("digest/unknown-version")
+	}
 }
 
 func c14Tail(s string) string {
-	if strings.HasPrefix(s, "err:") {
-		return ":" + s[4:]
+	if strings.HasPrefix(s, "err") {
+		return ":" + s[3:]
 	}
 	return ""
 }
@@ -850,6 +882,7 @@ func (e *c14Env) provider(r *Run, rng *rand.Rand) {
 	r.Distinct("provider" + inTok + dev)
 	r.Count("provider/dev/" + dev)
 	r.Count("provider/" + res)
+	r.Count("provider/kind/" + c14LastKind)
 
 	// ---- oracle: "signs an order into a ticket only if …" ----
 	signed := res == "ok"
